@@ -20,7 +20,7 @@ from ..gen import rtl as G
 
 PID = "C33"
 
-_MANIFEST_NOT_READY = MANIFEST_ = {
+MANIFEST = MANIFEST_ = {
     "category": "other",
     "technique": "Coq swap theorem (induction on the swap point) + forced hot swap of the real simulator at chosen dispatch "
                  "counts via a cfg(veryl_verif) hook, compared across swap points and against the extracted reference",
@@ -158,7 +158,7 @@ def run(tier, seed, replay):
         for ci in range(len(cases)):
             sw[ci]["never"] = never[ci]["never"]
         jit = S.run_engine(binary, [G.sim_case(m, st) for m, st, _ in cases], S.ENGINES["jit"], nshards=4)
-        ref = R.ref_eval(refbin, [(m, st, "2") for m, st, _ in cases])
+        ref = R.ref_eval(refbin, [(m, st, "2u") for m, st, _ in cases])
         return sw, jit, ref
 
     if replay:
